@@ -163,6 +163,33 @@ func runC15(r *core.Run) {
 		case 2:
 			q.SeedVCSs = []endorse.VersionControl{vcs, vcs2}
 			r.Probe("seeded-vcss")
+		case 3:
+			// the same long-lived Context has just PREVIEWED the same image with other options
+			// (product, VMSA count, machine shapes): this preview reports this run's measurements
+			prior := q
+			prior.Genoa = !q.Genoa
+			switch q.LaunchVmsas {
+			case 0:
+				prior.LaunchVmsas = 4
+			default:
+				prior.LaunchVmsas = 0
+			}
+			if q.TDX {
+				prior.EarlyAccept = !q.EarlyAccept
+				if len(q.Shapes) == 0 {
+					prior.Shapes = []string{"c3-standard-4"}
+				} else {
+					prior.Shapes = nil
+				}
+			}
+			ec := BuildContext(vcs, prior)
+			prior.Reuse = ec
+			if _, err := Endorse(r, a, vcs, prior, scratch); err != nil {
+				r.HarnessErr = "earlier preview on the shared context failed: " + err.Error()
+				return
+			}
+			q.Reuse = ec
+			r.Probe("reused-context-after-other-preview")
 		}
 	}
 	// a transient failure of the randomness source during the run, on a back end that calls every
